@@ -70,6 +70,10 @@ def repo_sources():
     return names
 
 
+def harness_sources():
+    return ["vh.c", "vhrt.c"] + sorted(f for f in os.listdir(HARNESS) if f.startswith("vh_") and f.endswith(".c"))
+
+
 VARIANTS = {
     # name: (compiler, cflags, cmake args, ldflags)
     "san": ("clang", "-O1 -g -fsanitize=address,undefined -fno-sanitize-recover=undefined -fno-omit-frame-pointer",
@@ -574,12 +578,27 @@ def execution_around(lines, idx, reset_pred=lambda ln: ln.startswith('{"e":"new"
 def tlc_export_edges(module, cfg, timeout=900, xmx="4g"):
     """Run the export config (ACTION_CONSTRAINT printing <<"EDGE", ToJson(hist')>>) with one
     worker (deterministic BFS) and return the list of histories (lists of call records)."""
+    # the export is a pure function of the specification files: cache it by their content
+    key = sha(module, open(os.path.join(SPEC, "cfg", cfg)).read(),
+              *[file_sha(os.path.join(SPEC, f)) for f in sorted(os.listdir(SPEC)) if f.endswith(".tla")])[:20]
+    cdir = os.path.join(BUILD, "export-cache")
+    os.makedirs(cdir, exist_ok=True)
+    cpath = os.path.join(cdir, "%s-%s.json" % (os.path.basename(cfg), key))
+    if os.path.exists(cpath):
+        d = json.load(open(cpath))
+        r = TlcResult(0, d["tail"], 0.0)
+        r.cached = True
+        return d["hists"], r
     r = tlc(module, cfg, workers=1, timeout=timeout, xmx=xmx)
     if not r.ok:
         raise Broken("TLC export %s/%s failed rc=%d\n%s" % (module, cfg, r.rc, r.out[-3000:]))
     hists = []
     for m in re.finditer(r'^<<"EDGE", "(.*)">>$', r.out, re.M):
         hists.append(json.loads(m.group(1).replace('\\"', '"').replace("\\\\", "\\")))
+    tail = "\n".join(ln for ln in r.out.splitlines() if "EDGE" not in ln)[-3000:]
+    with open(cpath + ".tmp", "w") as f:
+        json.dump({"hists": hists, "tail": tail}, f)
+    os.replace(cpath + ".tmp", cpath)
     return hists, r
 
 
